@@ -27,7 +27,9 @@ THEOREMS = ["Gnmi.Refine." + t for t in [
     # LTS invariants transferred to the sequential model
     "seq_one_sync", "seq_never_sends_denied", "converges_of_rel", "seq_converges", "view_eq_replay", "seq_converges_replay",
     # where the two models differ (decided witnesses; replayed on the real server)
-    "histE_state", "suppressed_update_not_simulated", "suppressed_update_lts_run", "overlap_dup_differs",
+    "histE_state", "suppressed_update_not_simulated", "suppressed_update_lts_run",
+    # a former difference, repaired in the LTS (bC05L): the walker may visit a leaf once per matching subscription path
+    "overlap_dup_agrees",
     # two former differences, repaired in the LTS (bLTSFIX): the mode switch sits at h4, after HasTarget and the ACL check;
     # the send timer is armed around the Send of the sync marker (D24)
     "mode_other_status_agrees", "mode_other_rejected_at_switch", "sync_send_expire_agrees",
@@ -53,8 +55,11 @@ LEVEL_TEXT = (
     "quiet log, so the SEQ state after one is related to no reachable configuration (suppressed_update_not_simulated; the real server "
     "behaves as SEQ: corpus/C04/refine_suppressed_update.ops), while suppressed_update_lts_run exhibits the LTS run with the quiet write "
     "that matches it (same responses sent, same stored notification, quiet log = the one pair of equal-valued notifications, to which "
-    "C04.converges applies); the general simulation of suppressing histories is not proved; the initial walk counts a leaf twice when one request holds overlapping paths, "
-    "the LTS walker visits it once (overlap_dup_differs; duplicate counts are therefore not related). Two former differences "
+    "C04.converges applies); the general simulation of suppressing histories is not proved; the initial walk counts a leaf twice when one request holds overlapping paths "
+    "(one Query per subscription path): the LTS walker may now visit a leaf once per matching path (Req.extra, C06Glue.extraOf; "
+    "SubLTS.visit_beyond_extra: not more often), and overlap_dup_agrees exhibits the run whose client is sent the update with "
+    "duplicates = 1 as in SEQ and on the real server (the simulation relation still relates queues and responses up to duplicate "
+    "counts: the LTS allows one visit per matching path, it does not force it). Two further former differences "
     "were repaired in the LTS: the handler tests the mode where the code does, in the switch after HasTarget and the ACL check "
     "(Mode.other, rejected at h4: mode_other_status_agrees — NotFound for a missing target, InvalidArgument otherwise, in both "
     "models), and the send timer is armed around the Send of the sync marker as since the repair of D24 (sync_send_expire_agrees: "
